@@ -267,9 +267,8 @@ class PackageTable:
             # what resolve_aliases hands back: the paths of the imports that could not be resolved because something is missing
             stage = "checking the returned set"
             dangling = set()
-            for a in keep:
-                if a.attrs.get("_target") is None and not a.attrs["name"].endswith("/*") and a.attrs.get("_parent") is not None \
-                        and a.attrs["_parent"].attrs["members"].get(a.attrs["name"]) is a:
+            for _path, a in self.aliases(ms):  # every alias in the tree now, whoever created it
+                if a.attrs.get("_target") is None and not a.attrs["name"].endswith("/*"):
                     try:
                         it.call(self.prog.lookup_method(a.cls, "resolve_target")[0], a)
                     except Raised as r:
